@@ -1082,9 +1082,10 @@ class Bits:
         """Overwrite with bs at pos."""
         assert 0 <= pos <= len(self)
         if bs is self:
-            # Just overwriting with self, so do nothing.
-            assert pos == 0
-            return
+            if pos == 0:
+                # Just overwriting with self, so do nothing.
+                return
+            bs = self._copy()
         self._bitstore[pos: pos + len(bs)] = bs._bitstore
 
     def _delete(self, bits: int, pos: int, /) -> None:
